@@ -360,6 +360,36 @@ def Aff.inv (A : Aff) : Except ErrKind Aff :=
     let L : Aff := ⟨⟨r0.x, r1.x, r2.x⟩, ⟨r0.y, r1.y, r2.y⟩, ⟨r0.z, r1.z, r2.z⟩, ⟨0, 0, 0⟩⟩
     .ok { L with t := V3.neg (L.lin A.t) }
 
+/-! ### the same as 4×4 matrices (what numpy actually multiplies and inverts) -/
+
+/-- a 4×4 matrix -/
+abbrev M4 := Fin 4 → Fin 4 → Rat
+
+/-- `M @ N` -/
+def M4.mul (M N : M4) : M4 := fun i j => M i 0 * N 0 j + M i 1 * N 1 j + M i 2 * N 2 j + M i 3 * N 3 j
+def M4.one : M4 := fun i j => if i = j then 1 else 0
+
+/-- a column of the affine matrix: the three components and the entry of the last row -/
+def V3.col4 (v : V3) (last : Rat) : Fin 4 → Rat := fun i =>
+  match i with
+  | 0 => v.x
+  | 1 => v.y
+  | 2 => v.z
+  | 3 => last
+
+/-- the 4×4 affine matrix `[[c0 c1 c2 t], [0 0 0 1]]` of an affine map -/
+def Aff.hom (A : Aff) : M4 := fun i j =>
+  match j with
+  | 0 => A.c0.col4 0 i
+  | 1 => A.c1.col4 0 i
+  | 2 => A.c2.col4 0 i
+  | 3 => A.t.col4 1 i
+
+/-- `np.dot(M, [x, y, z, 1])[:3]`: how the transformer applies its matrix to an index -/
+def M4.applyPt (M : M4) (v : V3) : V3 :=
+  ⟨M 0 0 * v.x + M 0 1 * v.y + M 0 2 * v.z + M 0 3, M 1 0 * v.x + M 1 1 * v.y + M 1 2 * v.z + M 1 3,
+   M 2 0 * v.x + M 2 1 * v.y + M 2 2 * v.z + M 2 3⟩
+
 def roundV (v : V3) : V3 := ⟨(roundHalfEven v.x : Int), (roundHalfEven v.y : Int), (roundHalfEven v.z : Int)⟩
 
 def minL : List Rat → Rat → Rat
